@@ -192,6 +192,39 @@ ROUND3.update({
              "missed: old names were resolved but no function record was loaded; every renamed function is now loaded as a FunctionType record through GlueUnSerializer"),
 })
 
+ROUND3.update({
+    "C02d": ("the loader of inline categorical components wraps the restored categories in np.unique (which sorts)",
+             "a categorical component whose categories were given explicitly in an order that is not the sorted one",
+             "missed: categorical components always had default (sorted) categories; explicit orders (with an unused category) added to the session generator"),
+    "C03d": ("BaseMultiLink.__init__ tests the wrong side when deciding whether the backwards function returns a tuple",
+             "a MultiLink with one attribute on one side and two on the other, read from the side with two",
+             "missed: no multi-attribute link collections in the link histories; MultiLink 1:2 and 2:1 added to model and generator"),
+    "C07d": ("Hub.delay_callbacks flushes the queue after, not inside, the finally clause",
+             "the outermost delay block left by an exception while messages are queued",
+             "caught"),
+    "C09d": ("polygon_line_intersections closes an open polygon with (x_first, y_last)",
+             "an unclosed polygon whose closing edge is oblique, one categorical and one numerical axis",
+             "caught"),
+    "C11d": ("Data.join_on_key registers the reverse direction with setdefault",
+             "the same pair of datasets joined a second time with other key columns or another shape",
+             "caught"),
+    "C13d": ("ApplyROI.undo restores only subsets still attached; the per-group restore only for groups without subsets",
+             "an ApplyROI on an existing group, every dataset removed and restored in between, then undo",
+             "caught"),
+    "C14d": ("dependents of a removed attribute are collected in one pass in listing order instead of recursively",
+             "a derived attribute listed before the derived attribute it is computed from (redefined in place, or reordered), then an input removed",
+             "missed: histories never reordered or redefined attributes; both added"),
+    "C15d": ("AffineCoordinates.axis_correlation_matrix uses np.isclose(x, 0) (absolute tolerance 1e-8)",
+             "an affine transformation with a genuine coefficient of magnitude <= 1e-8 (a world axis in very small units)",
+             "missed: coefficients were of order one; a world axis scaled by 2**-40 (exact) added"),
+    "C17d": ("the ComponentID.label setter compares the raw value with the stored text",
+             "a label assigned a non-string value whose text equals the current label",
+             "missed: labels were strings only; numeric labels added to the rename step"),
+    "C19d": ("extract_hdf5_datasets memory-maps datasets without a file offset (`and` for `or`)",
+             "an empty subset of a table exported to HDF5 and loaded back",
+             "missed: a reader failing on a zero-row file was recorded, not asserted; every reader copes on the unchanged tree, so it is asserted now"),
+})
+
 sweep = {}
 if len(sys.argv) > 1 and os.path.exists(sys.argv[1]):
     for line in open(sys.argv[1]):
